@@ -52,7 +52,7 @@ type c10Ctx struct {
 	err  error
 }
 
-func newC10Ctx() *c10Ctx { return &c10Ctx{Context: context.Background(), done: make(chan struct{})} }
+func newC10Ctx() *c10Ctx                { return &c10Ctx{Context: context.Background(), done: make(chan struct{})} }
 func (c *c10Ctx) Done() <-chan struct{} { return c.done }
 func (c *c10Ctx) Err() error {
 	c.mu.Lock()
@@ -319,14 +319,14 @@ type c10Run struct {
 	maxRetr int
 	enabled bool
 	// structured facts for the independent oracle
-	ivAtt    []int   // attempt argument of every interval call
-	lastXAtt int     // X-Attempt of the returned response (-1: no HTTP response)
-	mutated  bool    // a hook with a non-noop action ran
-	runaway  bool
-	wrappedRO  *retryOption // the retry option whose interval function is currently observed
-	sendStart  []int        // index into log where each Do call begins
-	sendStartRA []int       // RetryAttempt when each Do call begins
-	sendWires  []int        // len(wires) when each Do call begins
+	ivAtt       []int // attempt argument of every interval call
+	lastXAtt    int   // X-Attempt of the returned response (-1: no HTTP response)
+	mutated     bool  // a hook with a non-noop action ran
+	runaway     bool
+	wrappedRO   *retryOption // the retry option whose interval function is currently observed
+	sendStart   []int        // index into log where each Do call begins
+	sendStartRA []int        // RetryAttempt when each Do call begins
+	sendWires   []int        // len(wires) when each Do call begins
 }
 
 func (x *c10Run) outcome(i int) string {
@@ -872,7 +872,9 @@ func (x *c10Run) execOne(r *Request) bool {
 	return panicked
 }
 
-func (x *c10Run) answer() string { return strings.Join(append(append([]string{}, x.log...), x.final), " ") }
+func (x *c10Run) answer() string {
+	return strings.Join(append(append([]string{}, x.log...), x.final), " ")
+}
 
 // oracle checks the property clauses directly on the run, without the model.
 func (x *c10Run) oracle() (ok bool, why string) {
